@@ -396,7 +396,14 @@ def verdict(pid, mismatches, evidence, tier):
 def validate_log(module, log_path, constants=None, max_rejections=40, timeout=1800):
     """The log is a concatenation of executions, each starting with a {"e":"Reset",...} event that carries a
     "scenario" description.  Returns dict(events, executions, rejections=[{scenario, line, event, previous}], tlc_runs)."""
-    lines = [l for l in open(log_path) if l.strip()]
+    def whole(l):            # a recorder that died in the middle of a write leaves a partial last line: it is not an event
+        if not l.endswith("\n"):
+            try:
+                json.loads(l)
+            except ValueError:
+                return False
+        return True
+    lines = [l if l.endswith("\n") else l + "\n" for l in open(log_path, errors="replace") if l.strip() and whole(l)]
     starts = [i for i, l in enumerate(lines) if '"e":"Reset"' in l or '"e": "Reset"' in l]
     if not starts or starts[0] != 0:
         raise MachineryError("log does not start with a Reset event: " + log_path)
